@@ -57,11 +57,14 @@ def decode(data, plugins=False, every=True):
 KIND_PROJ = {'SRC': project.src, 'EH': project.eh, 'MT': project.mt, 'LP': project.lp}
 
 
-def observe(pel, family, plugins=False, standalone=True, env=None, extra=None):
+def observe(pel, family, plugins=False, standalone=True, env=None, extra=None, res=None):
     """pel: abstract PEL (genpel/encode shape).  Returns one record for Trace_Pel."""
     wire = project.to_wire(pel)
     data = encode.encode(pel)
-    res = decode(data, plugins)
+    if res is None:
+        res = decode(data, plugins)
+    else:                                   # a decode made elsewhere (fresh interpreter): JSON keeps the key order
+        res = dict(res, events=[], stderr='')
     rec = dict(family=family, shape_ok=True, abs=wire, bytes=data, outcome=res['outcome'],
                detail=res['detail'], final_index=res['final_index'], boundaries=res['boundaries'],
                keys=[], shown=dict(ph={}, uh={}, secs=[]), digests=[], alone=[],
